@@ -85,10 +85,10 @@ func (m *verif17Messages) Close()                         {}
 // Verif17DeliverMissingPieces lets a remote peer deliver every missing piece
 // through the real handler (handlePiecePayload), which ends in d.complete()
 // and the asynchronous completion notice.
-func Verif17DeliverMissingPieces(d *Dispatcher, missing []int) {
+func Verif17DeliverMissingPieces(d *Dispatcher, numPieces int, missing []int) {
 	var pid core.PeerID
 	pid[0] = 0x51
-	b := bitset.New(uint(d.torrent.NumPieces()))
+	b := bitset.New(uint(numPieces))
 	b.SetTo(0, true)
 	p, err := d.addPeer(pid, false, b, &verif17Messages{recv: make(chan *conn.Message)})
 	verif.Assert("add-peer", err == nil)
